@@ -225,10 +225,13 @@ def configs(draw, big=False):
             adds.append((role, list(perm[a:b])))
         if draw(st.booleans()) and adds[0][1]:
             adds.append(('scu', adds[0][1][:3]))          # overlap with an earlier call
+        if draw(st.booleans()) and adds[-1][1]:
+            adds[-1] = (adds[-1][0], adds[-1][1] + adds[-1][1][:2])     # a class repeated inside one call
     else:
         for _ in range(n_adds):
             role = 'scu' if kind == 'client' else draw(st.sampled_from(['scu', 'scp']))
-            adds.append((role, draw(st.lists(st.integers(0, 12), min_size=0, max_size=6, unique=True))))
+            lst = draw(st.lists(st.integers(0, 12), min_size=0, max_size=6, unique=draw(st.booleans())))
+            adds.append((role, lst))
     return {'kind': kind, 'ts': sorted(draw(st.sets(st.integers(0, 2)))), 'aet': draw(st.sampled_from(['CLI', 'A', 'LOCAL_AE_16CHARS'])),
             'max': draw(st.sampled_from([0, 7, 4096, 16384, 65536, 2 ** 32 - 1])), 'adds': adds}
 
@@ -329,7 +332,7 @@ def run_builtin(ctx):
 def run(ctx):
     warnings.simplefilter('ignore')
     ctx.rule = ('Hypothesis: sequences of 1-6 add_scu/add_scp calls on ClientAE/AE (never bound) with class lists '
-                'from a pool of 200 synthetic UIDs, disjoint and overlapping, small and with totals around and '
+                'from a pool of 200 synthetic UIDs, disjoint, overlapping across calls and repeated inside a call, small and with totals around and '
                 'beyond 128; replies with every mix of result codes 0-4, syntax choices, in and out of proposal '
                 'order; exhaustive reply patterns for proposals of 1-4 contexts; the own service objects of the library '
                 '(storage_scp: 139 classes); non-trivial = >=2 add_* calls and a reply mixing accept and reject')
